@@ -199,6 +199,37 @@ static void op_intr(void)
   h_out("ok %s", h_hex(r.b, n));
 }
 
+/* ------------------------------------------------------------------ lane-wise 32-bit intrinsics of logf/expf (table Lane32.lean) */
+static void op_lane32(void)
+{
+  const char *f = h_arg("f"); reg_t a, b, r; int imm = (int) h_argi("imm", 0); int canon = 0, i;
+  if (!f) { h_out("bad-op"); return; }
+  load("a", &a); load("b", &b); memset(&r, 0, sizeof r);
+  if      (!strcmp(f, "_mm_cvttps_epi32")) r.i128 = _mm_cvttps_epi32(a.f128);
+  else if (!strcmp(f, "_mm_cvtepi32_ps"))  r.f128 = _mm_cvtepi32_ps(a.i128);
+  else if (!strcmp(f, "_mm_cmplt_ps"))     r.f128 = _mm_cmplt_ps(a.f128, b.f128);
+  else if (!strcmp(f, "_mm_cmpgt_ps"))     r.f128 = _mm_cmpgt_ps(a.f128, b.f128);
+  else if (!strcmp(f, "_mm_cmple_ps"))     r.f128 = _mm_cmple_ps(a.f128, b.f128);
+  else if (!strcmp(f, "_mm_cmpeq_epi32"))  r.i128 = _mm_cmpeq_epi32(a.i128, b.i128);
+  else if (!strcmp(f, "_mm_sub_epi32"))    r.i128 = _mm_sub_epi32(a.i128, b.i128);
+  else if (!strcmp(f, "_mm_add_epi32"))    r.i128 = _mm_add_epi32(a.i128, b.i128);
+  else if (!strcmp(f, "_mm_and_ps"))       r.f128 = _mm_and_ps(a.f128, b.f128);
+  else if (!strcmp(f, "_mm_or_ps"))        r.f128 = _mm_or_ps(a.f128, b.f128);
+  else if (!strcmp(f, "_mm_andnot_ps"))    r.f128 = _mm_andnot_ps(a.f128, b.f128);
+  else if (!strcmp(f, "_mm_sub_ps"))     { r.f128 = _mm_sub_ps(a.f128, b.f128); canon = 1; }
+  else if (!strcmp(f, "_mm_mul_ps"))     { r.f128 = _mm_mul_ps(a.f128, b.f128); canon = 1; }
+  else if (!strcmp(f, "_mm_add_ps"))     { r.f128 = _mm_add_ps(a.f128, b.f128); canon = 1; }
+  else if (!strcmp(f, "_mm_srli_epi32")) {
+#define G1(i) r.i128 = _mm_srli_epi32(a.i128, i)
+    switch (imm) { C16(G1,0) C16(G1,16) default: h_out("bad-op"); return; } }
+  else if (!strcmp(f, "_mm_slli_epi32")) {
+#define G2(i) r.i128 = _mm_slli_epi32(a.i128, i)
+    switch (imm) { C16(G2,0) C16(G2,16) default: h_out("bad-op"); return; } }
+  else { h_out("bad-op"); return; }
+  if (canon) for (i = 0; i < 16; i += 4) { uint32_t u; memcpy(&u, r.b + i, 4); u = canon_nan(u); memcpy(r.b + i, &u, 4); }
+  h_out("ok %s", h_hex(r.b, 16));
+}
+
 /* ------------------------------------------------------------------ logf / expf */
 static void op_logexp(int is_log)
 {
@@ -293,6 +324,7 @@ static void op_vec(void)
     else if (!strcmp(op, "Max"))      h_out("ok %s", DB(esl_vec_DMax(x, n)));
     else if (!strcmp(op, "Min"))      h_out("ok %s", DB(esl_vec_DMin(x, n)));
     else if (!strcmp(op, "MatMax"))   { int M = (int) h_argi("m", 1); double **A = esl_mat_DCreate(M, (int)(n / M)); memcpy(A[0], x, 8*n); h_out("ok %s", DB(esl_mat_DMax(A, M, (int)(n / M)))); esl_mat_DDestroy(A); }
+    else if (!strcmp(op, "MatScale")) { int M = (int) h_argi("m", 1); double **A = esl_mat_DCreate(M, (int)(n / M)); memcpy(A[0], x, 8*n); esl_mat_DScale(A, M, (int)(n / M), sd); out_dvec(A[0], n); esl_mat_DDestroy(A); }
     else if (!strcmp(op, "ArgMax"))   h_out("ok %" PRId64, esl_vec_DArgMax(x, n));
     else if (!strcmp(op, "ArgMin"))   h_out("ok %" PRId64, esl_vec_DArgMin(x, n));
     else if (!strcmp(op, "SortIncreasing")) { esl_vec_DSortIncreasing(x, n); out_dvec(x, n); }
@@ -326,6 +358,7 @@ static void op_vec(void)
     else if (!strcmp(op, "Max"))      h_out("ok %s", FB(esl_vec_FMax(x, n)));
     else if (!strcmp(op, "Min"))      h_out("ok %s", FB(esl_vec_FMin(x, n)));
     else if (!strcmp(op, "MatMax"))   { int M = (int) h_argi("m", 1); float **A = esl_mat_FCreate(M, (int)(n / M)); memcpy(A[0], x, 4*n); h_out("ok %s", FB(esl_mat_FMax(A, M, (int)(n / M)))); esl_mat_FDestroy(A); }
+    else if (!strcmp(op, "MatScale")) { int M = (int) h_argi("m", 1); float **A = esl_mat_FCreate(M, (int)(n / M)); memcpy(A[0], x, 4*n); esl_mat_FScale(A, M, (int)(n / M), sf); out_fvec(A[0], n); esl_mat_FDestroy(A); }
     else if (!strcmp(op, "ArgMax"))   h_out("ok %" PRId64, esl_vec_FArgMax(x, n));
     else if (!strcmp(op, "ArgMin"))   h_out("ok %" PRId64, esl_vec_FArgMin(x, n));
     else if (!strcmp(op, "SortIncreasing")) { esl_vec_FSortIncreasing(x, n); out_fvec(x, n); }
@@ -385,6 +418,7 @@ static void h_op(void)
   if      (!strcmp(op, "cpu"))   h_out("ok sse=1 avx=%d avx512=%d", have_avx, have_avx512);
   else if (!strcmp(op, "simd"))  op_simd();
   else if (!strcmp(op, "intr"))  op_intr();
+  else if (!strcmp(op, "lane32")) op_lane32();
   else if (!strcmp(op, "logf"))  op_logexp(1);
   else if (!strcmp(op, "expf"))  op_logexp(0);
   else if (!strcmp(op, "sweep")) op_sweep();
